@@ -42,18 +42,18 @@ public class JDrive {
     return new double[0];
   }
   static Map<String, Crystal_Struct> defs = new HashMap<>();
-  /** a Crystal_Struct with exactly the C side's field values, through the class's own (protected) deserialising constructor */
+  
+  /** a Crystal_Struct with exactly the C side's field values: the library's own copy of the built-in crystal of that name, its public (final) fields
+   *  overwritten one by one through reflection -- no assumption about constructors or about the layout of the data file */
+  static void setField(Object o, String name, Object v) throws Exception { Field f = o.getClass().getField(name); f.setAccessible(true); f.set(o, v); }
   static void define(String name, String cd, String zl) throws Exception {
     String[] dv = cd.split(";"); String[] zs = zl.isEmpty() ? new String[0] : zl.split(",");
-    java.nio.ByteBuffer bb = java.nio.ByteBuffer.allocate(name.length() + 1 + 8 * dv.length + 4 + 4 * zs.length).order(java.nio.ByteOrder.LITTLE_ENDIAN);
-    bb.put(name.getBytes("ISO-8859-1")); bb.put((byte) 0);
     double[] v = new double[dv.length]; for (int i = 0; i < dv.length; i++) { String[] hl = dv[i].split(","); v[i] = Double.longBitsToDouble(((long) Integer.parseInt(hl[0]) << 32) | (Integer.parseInt(hl[1]) & 0xffffffffL)); }
-    for (int i = 0; i < 7; i++) bb.putDouble(v[i]);
-    bb.putInt(zs.length);
-    for (int i = 0; i < zs.length; i++) { bb.putInt(Integer.parseInt(zs[i])); for (int k = 0; k < 4; k++) bb.putDouble(v[7 + 4 * i + k]); }
-    bb.flip();
-    Constructor<Crystal_Struct> c = Crystal_Struct.class.getDeclaredConstructor(java.nio.ByteBuffer.class); c.setAccessible(true);
-    defs.put(name, c.newInstance(bb));
+    Crystal_Struct cs = Xraylib.Crystal_GetCrystal(name);
+    if (cs.n_atom != zs.length) throw new IllegalStateException("crystal " + name + ": " + cs.n_atom + " atoms in Java, " + zs.length + " in C");
+    String[] fn = {"a", "b", "c", "alpha", "beta", "gamma", "volume"}; for (int i = 0; i < 7; i++) setField(cs, fn[i], v[i]);
+    for (int i = 0; i < zs.length; i++) { Object at = cs.atom[i]; setField(at, "Zatom", Integer.parseInt(zs[i])); setField(at, "fraction", v[7 + 4 * i]); setField(at, "x", v[8 + 4 * i]); setField(at, "y", v[9 + 4 * i]); setField(at, "z", v[10 + 4 * i]); }
+    defs.put(name, cs);
   }
   static final String[] SH = {"", "L1", "L2", "L3", "M1", "M2", "M3", "M4", "M5"};
   static Method byName(String fn) { for (Method m : Xraylib.class.getMethods()) if (m.getName().equals(fn)) return m; return null; }
